@@ -6,9 +6,14 @@
      enough m pd : the PixelData byte string pd holds all frames
      spec_frame m pd i : the stored values of frame i read straight off pd
      frame_eager / frame_lazy / frame_of_array : get_stored_frame on an in-memory image,
-        on a lazily read file (= ImageFileReader.read_frame), and a slice of pydicom's pixel_array *)
+        on a lazily read file (= ImageFileReader.read_frame), and a slice of pydicom's pixel_array
+     cfmt = fmt + SamplesPerPixel, PlanarConfiguration = 1, Rows; valid_c c : valid_fmt and colour-by-plane
+        only for byte-aligned samples; spec_frame_c = spec_frame rearranged to (rows, columns, samples)
+     img = current description + PixelData + what pydicom's cached decoded array was decoded from
+        (None = nothing cached); st_one / st_batch / pixel_array : get_stored_frame / get_stored_frames /
+        pixel_array on such an image; step / run_ops : a history of reads and edits *)
 From Coq Require Import String ZArith List Bool.
-From HD Require Import Base.Val C05_Model C05_Proofs C05_Proofs_Encaps.
+From HD Require Import Base.Val C05_Model C05_Proofs C05_Proofs_Encaps C05_Proofs_State.
 Import ListNotations.
 Open Scope Z_scope.
 
@@ -96,6 +101,61 @@ Theorem C05_raw_decodes_same : forall m pd f ai lazy raw i, valid_fmt m -> enoug
 Proof. exact raw_decodes_same. Qed.
 Print Assumptions C05_raw_decodes_same.
 
+(* ---- colour-by-plane (PlanarConfiguration = 1) ---- *)
+(* every path rearranges the stored planes the same way, for both planar configurations *)
+Theorem C05_native_paths_agree_planar : forall c pd i, valid_c c -> enough (c_fmt c) pd -> 0 <= i < f_frames (c_fmt c) ->
+  frame_eager_c c pd i = Ok (spec_frame_c c pd i) /\
+  frame_lazy_c c pd i = Ok (spec_frame_c c pd i) /\
+  frame_of_array_c c pd i = Ok (spec_frame_c c pd i).
+Proof. exact native_paths_agree_c. Qed.
+Print Assumptions C05_native_paths_agree_planar.
+
+(* ... and the rearrangement is the one DICOM defines: sample s of pixel p is element p of plane s
+   (nothing is lost: same length); PlanarConfiguration = 0 leaves the frame as stored *)
+Theorem C05_planar_layout : forall spp rc l p s, 1 <= spp -> zlen l = rc * spp -> 0 <= p < rc -> 0 <= s < spp ->
+  nth_error (deplane true spp l) (Z.to_nat (p * spp + s)) = nth_error l (Z.to_nat (s * rc + p)).
+Proof. exact deplane_layout. Qed.
+Print Assumptions C05_planar_layout.
+
+Theorem C05_planar_length : forall p s l, length (deplane p s l) = length l /\ deplane false s l = l.
+Proof. intros. split; [apply deplane_length|reflexivity]. Qed.
+Print Assumptions C05_planar_length.
+
+(* ---- the cached decoded array is never served stale ---- *)
+(* in ANY cache state (st ranges over every value of i_cache, i.e. over every history of earlier reads
+   and edits) pixel_array, get_stored_frame and get_stored_frames answer from the CURRENT description
+   and PixelData, and leave them untouched *)
+Theorem C05_pixel_array_current : forall st,
+  snd (pixel_array st) = whole_array_c (i_c st) (i_pd st) /\ content (fst (pixel_array st)) = content st.
+Proof. exact pixel_array_spec. Qed.
+Print Assumptions C05_pixel_array_current.
+
+Theorem C05_stored_frame_ignores_cache : forall st f ai, valid_c (i_c st) -> enough (c_fmt (i_c st)) (i_pd st) ->
+  snd (st_one st f ai) =
+    bind (std_index (f_frames (c_fmt (i_c st))) f ai) (fun i => Ok (spec_frame_c (i_c st) (i_pd st) i)) /\
+  content (fst (st_one st f ai)) = content st.
+Proof. exact st_one_spec. Qed.
+Print Assumptions C05_stored_frame_ignores_cache.
+
+Theorem C05_stored_frames_ignore_cache : forall fs st ai, valid_c (i_c st) -> enough (c_fmt (i_c st)) (i_pd st) ->
+  snd (st_batch st fs ai) =
+    match fs with
+    | [] => Err "ValueError"%string
+    | _ => sequence (map (fun f => bind (std_index (f_frames (c_fmt (i_c st))) f ai)
+                                     (fun i => Ok (spec_frame_c (i_c st) (i_pd st) i))) fs)
+    end /\
+  content (fst (st_batch st fs ai)) = content st.
+Proof. exact st_batch_spec. Qed.
+Print Assumptions C05_stored_frames_ignore_cache.
+
+(* any sequence of whole-array / single / batch / raw / decode-raw reads interleaved with edits of
+   PixelData (by assignment or in place) and of the pixel description: every answer is the one a
+   cache-free reading of the content at that moment gives (ref_ops never looks at a cache) *)
+Theorem C05_history_irrelevant : forall ops st, ops_valid (content st) ops ->
+  run_ops st ops = ref_ops (content st) ops.
+Proof. exact history_irrelevant. Qed.
+Print Assumptions C05_history_irrelevant.
+
 (* ---- encapsulated pixel data (item level) ---- *)
 (* with the true table, the reader returns exactly the fragments of frame i, for any
    fragmentation (bot_correct, including multi-fragment frames) *)
@@ -180,3 +240,29 @@ Proof.
       repeat (destruct Hit as [<- | Hit]; [reflexivity|]); contradiction.
 Qed.
 Print Assumptions C05_example_encaps.
+
+(* one RGB frame of 2 pixels stored colour-by-plane R1 R2 G1 G2 B1 B2 *)
+Example C05_example_planar :
+  let c := CFmt (Fmt 8 8 false 6 1) 3 true 1 in let pd := [1; 2; 3; 4; 5; 6] in
+  valid_c c /\ enough (c_fmt c) pd /\
+  frame_eager_c c pd 0 = Ok [1; 3; 5; 2; 4; 6] /\ frame_of_array_c c pd 0 = Ok [1; 3; 5; 2; 4; 6].
+Proof.
+  cbv zeta. unfold valid_c, valid_fmt, enough. cbn [c_fmt c_planar f_bits f_npx f_frames].
+  repeat split; try (vm_compute; congruence); auto; try (vm_compute; auto; fail); try discriminate.
+Qed.
+Print Assumptions C05_example_planar.
+
+(* whole array cached, PixelData swapped in place, PixelRepresentation corrected, then single frame:
+   the answer comes from the new bytes with the new signedness (the stale cache held [[255]; [1]]) *)
+Example C05_example_history :
+  let c := CFmt (Fmt 8 8 false 1 2) 1 false 1 in let c' := CFmt (Fmt 8 8 true 1 2) 1 false 1 in
+  let ops := [OWhole; OInplace [254; 7]; OHeader c'; OOne 1 false; OBatch [2; 1] false] in
+  ops_valid (c, [255; 1]) ops /\
+  run_history c [255; 1] ops =
+    VL [VL [meta c; vz_list2 [[255]; [1]]]; VNone; VNone; VL [meta c'; vz_list [-2]]; VL [meta c'; vz_list2 [[7]; [-2]]]].
+Proof.
+  cbv zeta. split; [|vm_compute; reflexivity].
+  cbn [ops_valid ref_step fst snd]. unfold valid_c, valid_fmt, enough. cbn [c_fmt c_planar f_bits f_npx f_frames].
+  repeat split; try (vm_compute; congruence); auto; try discriminate.
+Qed.
+Print Assumptions C05_example_history.
